@@ -80,6 +80,11 @@ pub struct C05Plan {
     /// decoder must not keep holding the larger window's worth of data)
     #[serde(default)]
     pub before_window_log: Option<u8>,
+    /// the caller sets this window limit on the decoder right before the measured frame (after the optional history
+    /// frame, which was accepted under the default limit): a frame declaring more must not make the decoder hold
+    /// more than the limit allows
+    #[serde(default)]
+    pub max_window: Option<u64>,
     pub load: Load,
     pub front: Front05,
     /// budgets, used cyclically until the frame ends
@@ -224,7 +229,20 @@ impl Engine for C05 {
             Load::BlockRun { window_log, .. } | Load::DictRun { window_log, .. } => 1usize << *window_log,
         };
         let before_window_log = if r.chance(1, 6) { Some(*r.pick(&[20u8, 23, 23, 24])) } else { None };
-        C05Plan { before_window_log, load, front, calls: gen_calls(&mut r, front, window), chunks: crate::driver::gen_chunks(&mut r) }
+        let max_window = if r.chance(1, 6) {
+            let w = window as u64;
+            Some(match r.below(6) {
+                0 => w.saturating_sub(1),
+                1 => w,
+                2 => w / 2,
+                3 => 1024,
+                4 => 1 << 20,
+                _ => w + 1,
+            })
+        } else {
+            None
+        };
+        C05Plan { before_window_log, max_window, load, front, calls: gen_calls(&mut r, front, window), chunks: crate::driver::gen_chunks(&mut r) }
     }
 
     fn exec(&self, plan: &C05Plan, stats: &mut Stats, log: Option<&mut Vec<Value>>) -> Result<RunOutcome, HarnessError> {
@@ -308,7 +326,17 @@ impl Engine for C05 {
         stats.inc(&format!("front.{front_name}"));
         // the decoder's own idea of the window is what it was told by the (possibly corrupt) header; the bound uses
         // the header's declared window as parsed independently
-        let w = hdr.as_ref().map(|h| h.window).unwrap_or(0).min(1 << 40) as usize;
+        let w_declared = hdr.as_ref().map(|h| h.window).unwrap_or(0).min(1 << 40) as usize;
+        // a frame declaring more than the configured limit has to be refused; whatever happens, the decoder may not
+        // hold more than the limit's worth of window
+        let above_limit = plan.max_window.map(|l| w_declared as u64 > l).unwrap_or(false);
+        let w = match plan.max_window {
+            Some(l) => w_declared.min(l.min(1 << 40) as usize),
+            None => w_declared,
+        };
+        if plan.max_window.is_some() {
+            stats.inc(if above_limit { "probe.window_limit_below_declared_window" } else { "probe.window_limit_set" });
+        }
         let mut check = |held: usize, req: usize, peak_delta: usize, what: &str, worst: &mut Option<Violation>, stats: &mut Stats| {
             let bound = w.saturating_add(req).saturating_add(b);
             if held > bound && worst.is_none() {
@@ -343,6 +371,9 @@ impl Engine for C05 {
                     let _ = dec.collect();
                     stats.inc("probe.measured_on_reused_decoder_after_larger_window");
                 }
+            }
+            if let Some(l) = plan.max_window {
+                dec.set_max_window_size(l);
             }
             dec
         };
@@ -538,7 +569,7 @@ impl Engine for C05 {
                     }
                 }
                 "valid" | "block_run" => {
-                    if got_err {
+                    if got_err && !above_limit {
                         worst = Some(violation("C05/valid_frame_rejected", format!("a valid frame was rejected ({front_name} front end)")));
                     }
                 }
@@ -584,6 +615,9 @@ impl Engine for C05 {
         }
         if plan.before_window_log.is_some() {
             out.push(C05Plan { before_window_log: None, ..plan.clone() });
+        }
+        if plan.max_window.is_some() {
+            out.push(C05Plan { max_window: None, ..plan.clone() });
         }
         if let Load::BlockRun { window_log, nblocks, raw_every, block_len, seed } = &plan.load {
             if *nblocks > 2 {
@@ -663,6 +697,6 @@ impl Engine for C05 {
     }
 
     fn expected_reach(&self, _tier: Tier) -> Vec<&'static str> {
-        vec!["load.bomb", "load.valid", "load.corrupt", "load.block_run", "load.dict_run", "probe.dictionary_registered", "probe.dict_run_decoded", "probe.measured_on_reused_decoder_after_larger_window", "front.reader", "front.stream", "front.slice", "probe.bomb_rejected", "probe.corrupt_rejected", "probe.corrupt_accepted", "probe.held_above_window_plus_block", "probe.content_larger_than_window"]
+        vec!["load.bomb", "load.valid", "load.corrupt", "load.block_run", "load.dict_run", "probe.window_limit_set", "probe.window_limit_below_declared_window", "probe.dictionary_registered", "probe.dict_run_decoded", "probe.measured_on_reused_decoder_after_larger_window", "front.reader", "front.stream", "front.slice", "probe.bomb_rejected", "probe.corrupt_rejected", "probe.corrupt_accepted", "probe.held_above_window_plus_block", "probe.content_larger_than_window"]
     }
 }
